@@ -307,7 +307,7 @@ def construct_models_for_chromosome(sample, chr_id, dump_filename, args, read_gr
             model_constructor.process(assignment_storage)
             if args.check_canonical:
                 io_support.add_canonical_info(model_constructor.transcript_model_storage, gene_info)
-            tmp_gff_printer.dump(model_constructor.gene_info, model_constructor.transcript_model_storage)
+            tmp_gff_printer.add_models(model_constructor.gene_info, model_constructor.transcript_model_storage)
             tmp_gff_printer.dump_read_assignments(model_constructor)
             for m in model_constructor.transcript_model_storage:
                 if m.transcript_type != TranscriptModelType.known:
@@ -320,6 +320,7 @@ def construct_models_for_chromosome(sample, chr_id, dump_filename, args, read_gr
     aggregator.global_counter.dump()
     aggregator.read_stat_counter.dump(read_stat_file)
     if construct_models:
+        tmp_gff_printer.dump_added_models()
         if gffutils_db:
             all_models, gene_info = create_extended_storage(gffutils_db, chr_id, current_chr_record, novel_model_storage)
             if args.check_canonical:
